@@ -134,37 +134,47 @@ def FrameM.load (fr : FrameM) : FrameM :=
 def rescaleOK (w h lw lh : Nat) : Bool :=
   (w == lw || 2 * w == lw) && (h == lh || 2 * h == lh)
 
-/-- `compute_mipmaps(filter)` for one `(frame, depth|side)`: the state of levels `0 .. n-1`
-afterwards. Level 0 is loaded; a higher level whose `_data` is `None` is regenerated from the level
-below it (a lazy frame keeps its `fileData`: the file content wins when it is loaded later). -/
-def mipChain (fr : List (Key × FrameM)) (filt f d : Nat) : Nat → Except Err (List FrameM)
-  | 0 => pure []
-  | 1 => do
-    let some f0 := lookupFrame fr (f, d, 0) | throw .key
-    pure [f0.load]
-  | m + 2 => do
-    let prev ← mipChain fr filt f d (m + 1)
-    let some p := prev.getLast? | throw .key
-    let some cur := lookupFrame fr (f, d, m + 1) | throw .key
-    match cur.data with
-    | some _ => pure (prev ++ [cur])
-    | none =>
-      if !rescaleOK cur.w cur.h p.w p.h then throw .rescale
-      let some out := scaleDown filt p.w p.h cur.w cur.h (p.data.getD []) | throw .rescale
-      pure (prev ++ [{ cur with data := some out }])
+/-- `compute_mipmaps(filter)`: the state of level `m` of `(frame f, depth|side d)` afterwards.
+Level 0 is loaded; a higher level whose `_data` is `None` is regenerated from the (already
+processed) level below it (a lazy frame keeps its `fileData`: the file content wins when it is
+loaded later); a level that holds data is left alone. -/
+def levelAfter (fr : List (Key × FrameM)) (filt f d : Nat) : Nat → Except Err FrameM
+  | 0 =>
+    match lookupFrame fr (f, d, 0) with
+    | some f0 => pure f0.load
+    | none => throw .key
+  | m + 1 =>
+    match levelAfter fr filt f d m with
+    | .error e => throw e
+    | .ok p =>
+      match lookupFrame fr (f, d, m + 1) with
+      | none => throw .key
+      | some cur =>
+        match cur.data with
+        | some _ => pure cur
+        | none =>
+          if !rescaleOK cur.w cur.h p.w p.h then throw .rescale
+          else match scaleDown filt p.w p.h cur.w cur.h (p.data.getD []) with
+            | some out => pure { cur with data := some out }
+            | none => throw .rescale
 
-/-- `(frame, depth|side)` pairs of the object's own range. -/
-def chainKeys (v : Vtf) : List (Nat × Nat) :=
-  (List.range v.frameCount).flatMap fun f => (depthSeq v.flags v.verMinor v.depth).map fun d => (f, d)
+/-- the keys `compute_mipmaps` works on: the object's own frames × sides × declared levels
+(level 0 is touched even when `mipmap_count` is 0). -/
+def inComputeRange (v : Vtf) (k : Key) : Bool :=
+  k.1 < v.frameCount && (depthSeq v.flags v.verMinor v.depth).contains k.2.1 && k.2.2 < max v.mipCount 1
 
-/-- All frames after `compute_mipmaps(filter)`: for every `(f, d)` of the object's own range, levels
-`0..mc-1` are replaced by the chain; other entries are unchanged. -/
-def computeMips (v : Vtf) (filt : Nat) : Except Err (List (Key × FrameM)) := do
-  let chains ← (chainKeys v).mapM fun (f, d) => do
-    let ch ← mipChain v.frames filt f d (max v.mipCount 1)
-    pure (ch.zipIdx.map fun (fm, m) => ((f, d, m), fm))
-  let out := chains.flatten
-  pure (out ++ v.frames.filter fun p => !(out.any fun q => q.1 == p.1))
+/-- All frames after `compute_mipmaps(filter)`: every frame in range is replaced by its state
+afterwards (a missing one is a `KeyError`), the others are unchanged. -/
+def computeMips (v : Vtf) (filt : Nat) : Except Err (List (Key × FrameM)) :=
+  if (fileKeys (max v.mipCount 1) v.frameCount (depthSeq v.flags v.verMinor v.depth)).all
+      (fun k => (lookupFrame v.frames k).isSome) then
+    v.frames.mapM fun (k, fr) =>
+      if inComputeRange v k then
+        match levelAfter v.frames filt k.1 k.2.1 k.2.2 with
+        | .ok fr' => pure (k, fr')
+        | .error e => throw e
+      else pure (k, fr)
+  else throw .key
 
 /-- one step of the thumbnail loop of `compute_mipmaps`. -/
 def lowStep (frames : List (Key × FrameM)) (side filt : Nat) (low : FrameM) (m : Nat) :
@@ -489,6 +499,50 @@ def readResources (file rest : List Nat) :
 def hdrWidths (minor : Nat) : List Nat :=
   [4, 2, 2, 4, 2, 2, 4, 12, 4, 4, 4, 1, 4, 1, 1] ++ (if minor ≥ 2 then [2] else [])
 
+/-- `VTF.read` after the fixed header has been split into its fields `f1` (`r1`: the bytes after
+them; `l`: the whole file, for absolute offsets). -/
+def readBody (l : List Nat) (minor : Nat) (f1 : List (List Nat)) (r1 : List Nat) : Except Err View :=
+  match f1 with
+  | hs :: w :: h :: fl :: fc :: ff :: _ :: refl :: _ :: bump :: hf :: mc :: lf :: lw :: lh :: dep =>
+    match formatOrder (leDecode hf), formatOrder (leDecode lf) with
+    | some fmt, some lowFmt =>
+      if fmt = fmtNone then throw .noFormat
+      else
+        let depth0 := match dep with
+          | [d] => leDecode d
+          | _ => 1
+        let depth := if depth0 = 0 then 1 else depth0
+        let headerSize := leDecode hs
+        let width := leDecode w
+        let height := leDecode h
+        let flags := leDecode fl
+        let lowW := leDecode lw
+        let lowH := leDecode lh
+        let rr : Except Err (List Res × List SheetSeq × Option Nat × Option Nat) :=
+          if minor ≥ 3 then readResources l r1
+          else pure ([], [], some headerSize,
+                     some (headerSize + frameSize (fmtOf lowFmt) lowW lowH))
+        match rr with
+        | .error e => throw e
+        | .ok (res, sheet, lo, hi) =>
+          match hi with
+          | none => throw .noHigh
+          | some high =>
+            let headerOnly : Bool := fmt = 24 ∨ fmt = 25
+            if lowFmt ≠ fmtNone ∧ !headerOnly ∧ lo.isNone then throw .noLow
+            else
+              let mipCount := leDecode mc
+              let frameCount := leDecode fc
+              pure { verMinor := minor, headerSize, width, height, flags, frameCount,
+                     firstFrame := leDecode ff, refl, bump, fmt, mipCount, lowFmt, lowW, lowH,
+                     depth, res, sheet,
+                     lowOff := if lowFmt ≠ fmtNone then lo else none,
+                     frames := layoutFrom (frameSize (fmtOf fmt)) (readerDims width height)
+                       (fileKeys mipCount frameCount (depthSeq flags minor depth)) high,
+                     headerOnly }
+    | _, _ => throw .key
+  | _ => throw .struct
+
 /-- `VTF.read(file)` (not `header_only`), up to the frame table. -/
 def readFile (l : List Nat) : Except Err View :=
   match splitW [4, 4, 4] l with
@@ -496,52 +550,11 @@ def readFile (l : List Nat) : Except Err View :=
   | some (f0, r0) =>
     match f0 with
     | [sig, major, minorB] =>
-      let minor := leDecode minorB
       if sig ≠ [86, 84, 70, 0] then throw .signature
-      else if leDecode major ≠ 7 ∨ minor > 5 then throw .version
-      else match splitW (hdrWidths minor) r0 with
+      else if leDecode major ≠ 7 ∨ leDecode minorB > 5 then throw .version
+      else match splitW (hdrWidths (leDecode minorB)) r0 with
         | none => throw .struct
-        | some (f1, r1) =>
-          match f1 with
-          | hs :: w :: h :: fl :: fc :: ff :: _ :: refl :: _ :: bump :: hf :: mc :: lf :: lw :: lh :: dep =>
-            match formatOrder (leDecode hf), formatOrder (leDecode lf) with
-            | some fmt, some lowFmt =>
-              if fmt = fmtNone then throw .noFormat
-              else
-                let depth0 := match dep with
-                  | [d] => leDecode d
-                  | _ => 1
-                let depth := if depth0 = 0 then 1 else depth0
-                let headerSize := leDecode hs
-                let width := leDecode w
-                let height := leDecode h
-                let flags := leDecode fl
-                let lowW := leDecode lw
-                let lowH := leDecode lh
-                let rr : Except Err (List Res × List SheetSeq × Option Nat × Option Nat) :=
-                  if minor ≥ 3 then readResources l r1
-                  else pure ([], [], some headerSize,
-                             some (headerSize + frameSize (fmtOf lowFmt) lowW lowH))
-                match rr with
-                | .error e => throw e
-                | .ok (res, sheet, lo, hi) =>
-                  match hi with
-                  | none => throw .noHigh
-                  | some high =>
-                    let headerOnly : Bool := fmt = 24 ∨ fmt = 25
-                    if lowFmt ≠ fmtNone ∧ !headerOnly ∧ lo.isNone then throw .noLow
-                    else
-                      let mipCount := leDecode mc
-                      let frameCount := leDecode fc
-                      pure { verMinor := minor, headerSize, width, height, flags, frameCount,
-                             firstFrame := leDecode ff, refl, bump, fmt, mipCount, lowFmt, lowW, lowH,
-                             depth, res, sheet,
-                             lowOff := if lowFmt ≠ fmtNone then lo else none,
-                             frames := layoutFrom (frameSize (fmtOf fmt)) (readerDims width height)
-                               (fileKeys mipCount frameCount (depthSeq flags minor depth)) high,
-                             headerOnly }
-            | _, _ => throw .key
-          | _ => throw .struct
+        | some (f1, r1) => readBody l (leDecode minorB) f1 r1
     | _ => throw .signature
 
 /-- `Frame.load()` of a lazily read frame: decode `frame_size` bytes at `off`. -/
